@@ -83,7 +83,7 @@ func init() {
 			return out
 		},
 		Bounds: func(tier string) string {
-			return "real ecosystems: lists of exactly 3 versions from 4 (quick) / 8 (thorough) grammar templates per ecosystem incl. textually different equal versions, and from 3 part-combination templates (golang: the three pseudo-version forms and an ordinary dotted pre-release); one (quick) / all 5 (thorough) non-identity input permutations; ecosystems with an open C01 finding are excluded while that finding is open. Longer lists: the CLI's generic sort function and the real slices.SortFunc over an abstract ecosystem (version = key + text, Compare by key): every weak ordering of 1..5 (quick) / 1..7 (thorough) arguments incl. repeated texts, every 0/1 key vector of length 12 and 13 (quick; 13 takes the pdqsort path) / 12..16 (thorough), every 0/1/2 key vector up to length 10 (thorough), and lists of 33 and 64 arguments with 10 free 0/1/2 keys among fixed ones (thorough); that real ecosystems behave like the abstract one rests on C01 (total preorder) and C18 (String returns the text)"
+			return "real ecosystems: lists of exactly 3 versions from 4 (quick) / 8 (thorough) grammar templates per ecosystem incl. textually different equal versions, and from 3 part-combination templates (golang: the three pseudo-version forms and an ordinary dotted pre-release); one (quick) / all 5 (thorough) non-identity input permutations; ecosystems with an open C01 finding are excluded while that finding is open. Longer lists: the CLI's generic sort function and the real slices.SortFunc over an abstract ecosystem (version = key + text, Compare by key): every weak ordering of 1..5 (quick) / 1..7 (thorough) arguments incl. repeated texts, every 0/1 key vector of length 12 and 13 (quick; 13 takes the pdqsort path) / 12..16 (thorough), every 0/1/2 key vector up to length 10 (thorough), and lists of 33 (64) arguments with 10 (8) free 0/1/2 keys among fixed ones (thorough); that real ecosystems behave like the abstract one rests on C01 (total preorder) and C18 (String returns the text)"
 		},
 	})
 
@@ -226,13 +226,18 @@ func abstractSortConfigs(tier string) []*Config {
 				add(ids(n), fmt.Sprintf("%d%d", m/3, m%3)+strings.Repeat(class(2), n-2), 1)
 			}
 		}
-		// long lists: 10 free keys among fixed ones
+		// long lists: 10 (33 elements) / 8 (64 elements) free keys among fixed ones; with 10 free keys
+		// a list of 64 needs most of the 900 s budget on an idle machine and exceeds it under load
 		for _, n := range []int{33, 64} {
+			nfree := 10
+			if n == 64 {
+				nfree = 8
+			}
 			for variant := 0; variant < 3; variant++ {
 				var sb strings.Builder
 				free := 0
 				for p := 0; p < n; p++ {
-					if free < 10 && (p*5+variant*7)%(n/10) == 0 {
+					if free < nfree && (p*5+variant*7)%(n/10) == 0 {
 						sb.WriteString(class(2))
 						free++
 					} else {
